@@ -1346,6 +1346,11 @@ pub fn c16_case(dir: &Path, states: &[CState], order: &[usize], at_limit: bool) 
             let _ = l.write_all(&Req::Set(b"late".to_vec(), b"val".to_vec()).encode());
             srv.quiesce(srv.epoch());
         }
+        // however long the connections take: ten minutes pass for the server thread (timers it
+        // sleeps on fire; the pinned server waits for its connections without any timer)
+        for _ in 0..3 {
+            srv.let_time_pass(200_000);
+        }
         let busy = |held_op: &Vec<Option<usize>>, next_ev: &Vec<usize>| states.iter().enumerate().any(|(c, st)| next_ev[c] < pending_events(st).len() && (held_op[c].is_some() || *st == CState::ReplyStalled));
         let _ = &was_reset;
         // while a command is in flight, run() must not have returned and its client must not see a reply or a close
